@@ -249,6 +249,27 @@ const MAX_OCTAVE: u32 = 10;
 
 const V_MAX: f32 = MAX_OCTAVE as f32;
 
+#[cfg(feature = "verif-hooks")]
+impl Quantizer {
+    /// The conversion remembered for hysteresis, for the verification harness (state identity only)
+    pub fn verif_cached(&self) -> Conversion {
+        self.cached_conversion
+    }
+
+    /// The allowed-note bitfield, for the verification harness (state identity only)
+    pub fn verif_allowed(&self) -> u16 {
+        self.allowed
+    }
+
+    /// An independent copy of the quantizer in exactly the same state
+    pub fn verif_clone(&self) -> Self {
+        Self {
+            cached_conversion: self.cached_conversion,
+            allowed: self.allowed,
+        }
+    }
+}
+
 #[cfg(test)]
 #[allow(non_snake_case)]
 mod tests {
